@@ -883,44 +883,50 @@ func (c *Ctx) iteOfBuiltin(lit *ast.FuncLit) string {
 		}
 		return "?" + s
 	}
-	var top *ast.IfStmt
-	for _, st := range lit.Body.List {
-		if is, ok := st.(*ast.IfStmt); ok {
-			top = is
-		}
+	// two paths over one condition (if/else, early return, either polarity), or a single return
+	paths, ok := c.retPaths(lit.Body.List)
+	if !ok {
+		return "?"
 	}
-	if top == nil {
-		rets := returnsOf(lit.Body)
-		if len(rets) == 1 {
-			s := c.sxInl(rets[0].Results[0], defs)
-			if s == "(CallExpr Fun:(SelectorExpr val Sel:Bool) Args:[(UnaryExpr Op:! (SelectorExpr (CallExpr Fun:(SelectorExpr (IndexExpr args Index:0) Sel:Bool)) Sel:V))])" {
-				return "not(a0)"
-			}
+	if len(paths) == 1 && paths[0].end == "return" && len(paths[0].conds) == 0 && len(paths[0].ret.Results) == 1 {
+		s := c.sxInl(paths[0].ret.Results[0], defs)
+		if s == "(CallExpr Fun:(SelectorExpr val Sel:Bool) Args:[(UnaryExpr Op:! (SelectorExpr (CallExpr Fun:(SelectorExpr (IndexExpr args Index:0) Sel:Bool)) Sel:V))])" {
+			return "not(a0)"
 		}
 		return "?"
 	}
-	branch := func(b ast.Stmt) string {
-		blk, ok := b.(*ast.BlockStmt)
-		if !ok {
-			return "?"
-		}
-		d2 := c.localDefs(blk)
-		for k, v := range defs {
-			if _, ok := d2[k]; !ok {
-				d2[k] = v
-			}
-		}
-		save := defs
-		defs = d2
-		defer func() { defs = save }()
-		rets := returnsOf(blk)
-		if len(rets) != 1 {
-			return "?"
-		}
-		// no other thunk call in the branch
-		return thunk(rets[0].Results[0])
+	if len(paths) != 2 {
+		return "?"
 	}
-	return "ite(" + thunk(top.Cond) + "," + branch(top.Body) + "," + branch(top.Else) + ")"
+	var thenE, elseE, cond ast.Expr
+	for _, p := range paths {
+		if p.end != "return" || len(p.conds) != 1 || len(p.ret.Results) != 1 {
+			return "?"
+		}
+		ce, pos := unparen(p.conds[0].e), p.conds[0].pos
+		for {
+			u, isNot := ce.(*ast.UnaryExpr)
+			if !isNot || u.Op != token.NOT {
+				break
+			}
+			ce, pos = unparen(u.X), !pos
+		}
+		if cond == nil {
+			cond = ce
+		} else if c.sxInl(cond, defs) != c.sxInl(ce, defs) {
+			return "?"
+		}
+		// locals defined on this path only (a temporary holding the forced thunk)
+		if pos {
+			thenE = p.ret.Results[0]
+		} else {
+			elseE = p.ret.Results[0]
+		}
+	}
+	if thenE == nil || elseE == nil {
+		return "?"
+	}
+	return "ite(" + thunk(cond) + "," + thunk(thenE) + "," + thunk(elseE) + ")"
 }
 
 func (c *Ctx) thunkCallCount(n ast.Node) int {
